@@ -7,6 +7,8 @@ CONSTANTS
   MaxReq = 4
   NPkts = 40
   CtxMayExpire = TRUE
+  PlainShut = {}
+  DeadlinesMayFire = FALSE
   ClientMayClose = TRUE
   HandlerMayClose = TRUE
   HandlerMayHijack = TRUE
